@@ -28,6 +28,8 @@ func c18(c *Ctx) {
 	ruleFixedNamePod(c, "C18.R6")
 	rulePodUseENI(c, "C18.R7")
 	ruleRangeCopyStore(c, "C18.R8", c.P.AllFuncs(), "the whole module (the webhook normalises entries of the network list in place)")
+	c18R9(c)
+	c18R10(c)
 }
 
 // alwaysReachesFrom: every non-pruned path that starts right after a node
@@ -737,4 +739,118 @@ func c18R6(c *Ctx) {
 		})
 	}
 	c.Check(okNet, "C18.R6", "pod-networks annotation = marshalled network list", p.Pos(fn.Decl), fn.Key(), "Annotations[PodNetworks] = string(json.Marshal(networks))", got["PodNetworks"])
+}
+
+// R9: no short cut past the checks. podWebhook answers with a plain Allowed (the pod is admitted as it
+// is, nothing validated, nothing defaulted) only for the pods it does not own: host network, no
+// container, the ignore label, or no network definition matched. No marker a user can set on the pod —
+// an annotation that claims "already processed" — is such a reason.
+func c18R9(c *Ctx) {
+	p := c.P
+	c.Rule("C18.R9", "podWebhook returns a plain Allowed response only under host network ∨ no containers ∨ ignored by label ∨ no network definition matched — every other pod goes through the conflict check, the fixed-IP guard and the validation loop")
+	fn := p.Func("pkg/controller/webhook", "podWebhook")
+	if fn == nil {
+		c.Unres("C18.R9", "podWebhook", "not found")
+		return
+	}
+	info := fn.Info()
+	pod, matched := "", ""
+	ast.Inspect(fn.Decl.Body, func(k ast.Node) bool {
+		switch t := k.(type) {
+		case *ast.SelectorExpr:
+			if t.Sel.Name == "HostNetwork" && pod == "" {
+				if inner, ok := ast.Unparen(t.X).(*ast.SelectorExpr); ok && inner.Sel.Name == "Spec" {
+					pod = exprString(inner.X)
+				}
+			}
+		case *ast.AssignStmt:
+			if len(t.Rhs) == 1 && len(t.Lhs) >= 1 {
+				if call, ok := ast.Unparen(t.Rhs[0]).(*ast.CallExpr); ok {
+					if f := Callee(info, call); f != nil && f.Name() == "matchOnePodNetworking" {
+						matched = exprString(t.Lhs[0])
+					}
+				}
+			}
+		}
+		return true
+	})
+	if pod == "" {
+		c.Undec("C18.R9", "podWebhook: the pod under admission", p.Pos(fn.Decl), fn.Key(), "a variable whose Spec.HostNetwork is tested", "not found")
+		return
+	}
+	alts := []string{pod + ".Spec.HostNetwork", "len(" + pod + ".Spec.Containers) == 0", "types.IgnoredByTerway(" + pod + ".Labels)"}
+	if matched != "" {
+		alts = append(alts, matched+" == nil")
+	}
+	n := 0
+	for _, r := range declReturns(fn.Decl.Body) {
+		if len(r.Results) != 1 {
+			continue
+		}
+		call, ok := ast.Unparen(r.Results[0]).(*ast.CallExpr)
+		if !ok {
+			continue
+		}
+		if sel, ok := ast.Unparen(call.Fun).(*ast.SelectorExpr); !ok || sel.Sel.Name != "Allowed" {
+			continue
+		}
+		n++
+		c.RequireAnyOf("C18.R9", "podWebhook: Allowed only for a pod the webhook does not own", fn, r, alts)
+	}
+	c.Floor("C18.R9", "plain Allowed responses in podWebhook", 3, n)
+}
+
+// R10: the network definition's status follows its spec in both directions. `changed` — which decides
+// whether the PodNetworking reconciler refreshes Status.VSwitches (the webhook builds a pod's zone
+// affinity from it) — compares the spec's and the status's vSwitch ids as sets for equality: a vSwitch
+// removed from the spec is a change, like one that was added.
+func c18R10(c *Ctx) {
+	p := c.P
+	c.Rule("C18.R10", "pod-networking changed(): the spec's and the status's vSwitch ids are compared for set equality (Equal, or inclusion both ways) — a removed vSwitch is detected like an added one")
+	fn := p.Func("pkg/controller/pod-networking", "changed")
+	if fn == nil {
+		c.Unres("C18.R10", "pod-networking.changed", "not found")
+		return
+	}
+	info := fn.Info()
+	n := 0
+	for _, r := range declReturns(fn.Decl.Body) {
+		if len(r.Results) != 1 {
+			continue
+		}
+		if tv := info.Types[r.Results[0]]; tv.Value != nil {
+			continue
+		}
+		n++
+		// the calls the result is computed from
+		var names []string
+		recv := map[string][]string{}
+		ast.Inspect(derefExpr(fn, r.Results[0]), func(k ast.Node) bool {
+			if call, ok := k.(*ast.CallExpr); ok {
+				if sel, ok := ast.Unparen(call.Fun).(*ast.SelectorExpr); ok {
+					switch sel.Sel.Name {
+					case "Equal", "HasAll", "IsSuperset", "Difference", "SymmetricDifference":
+						names = append(names, sel.Sel.Name)
+						recv[sel.Sel.Name] = append(recv[sel.Sel.Name], exprString(sel.X))
+					}
+				}
+			}
+			return true
+		})
+		ok := false
+		for _, nm := range names {
+			switch nm {
+			case "Equal", "SymmetricDifference":
+				ok = true
+			case "HasAll", "IsSuperset", "Difference":
+				// both directions: two calls on two different receivers
+				rs := recv[nm]
+				if len(rs) >= 2 && rs[0] != rs[1] {
+					ok = true
+				}
+			}
+		}
+		c.Check(ok, "C18.R10", "changed(): symmetric comparison of spec and status", p.Pos(r), fn.Key(), "!spec.Equal(status) (or inclusion tested both ways)", "the result is computed from: "+strings.Join(names, ", "))
+	}
+	c.Floor("C18.R10", "computed results of changed()", 1, n)
 }
